@@ -286,6 +286,7 @@ func asSuffixErr(err error) *pointerSuffixError {
 //@ func wrapWithObjectName
 //@ property C05 C16 C20
 //@ requires quoted: len(quotedName) >= 2
+//@ at call jsonwire.UnquoteMayCopy#0 assert-before name-is-unescaped: !callArg1
 //@ requires scratch: asSuffixErr(err) == nil || distinctArrays(asSuffixErr(err).reversePointer, quotedName)
 //@ modifies asSuffixErr(err).reversePointer, asSuffixErr(err).reversePointer[:cap(asSuffixErr(err).reversePointer)]
 //@ ensures nonnil: result != nil && asSuffixErr(result) != nil
@@ -476,7 +477,9 @@ func asSuffixErr(err error) *pointerSuffixError {
 //
 //@ func (*decoderState).ReadToken
 //@ split
-//@ property C01 C05 C19 C20
+//@ property C01 C05 C16 C19 C20
+//@ at call wrapSyntacticError#0 assert-before truncated-input-names-the-container: callArg3 == 0
+//@ at call wrapSyntacticError#1 assert-before truncated-input-names-the-container: callArg3 == 0
 //@ requires d != nil && dbInv(d.prevStart, d.prevEnd, len(d.buf), d.baseOffset) && d.baseOffset+int64(len(d.buf)) < 1<<61 && smInv(d.Tokens.Stack, d.Tokens.Last)
 //@ requires peek: d.peekPos == 0 || d.peekErr != nil || (d.prevEnd <= d.peekPos && d.peekPos < len(d.buf))
 //@ requires names: nsLocalOK(d.Names.offsets, d.Names.unquotedNames) && nsRemoteOK(d.Names.offsets, len(d.buf)) && distinctArrays(d.Names.unquotedNames, d.buf) && nsWindowQuoted(d.Names.offsets, d.buf, d.prevStart)
